@@ -139,7 +139,7 @@ Proof. intros H. rewrite afind_app, H. reflexivity. Qed.
 Lemma step_keeps c ctr s c' ctr' : step (c, ctr) s = OK (c', ctr') -> keeps c c'.
 Proof. intros H. destruct s as [name items len|dummy name items len|opt name names domain sn|low high ins0 outs]; cbn [step] in H.
   - assert (G : add_super_sequence c ctr name items len = OK (c', ctr') -> keeps c c').
-    { clear H. intros H. unfold add_super_sequence in H. destruct (is_anon name); [discriminate|]. destruct (seq_defined c name); [discriminate|].
+    { clear H. intros H. unfold add_super_sequence in H. destruct (is_anon name); [discriminate|]. destruct (seq_defined c name); [discriminate|]. destruct (ahas (c_structs c) name); [discriminate|].
       destruct (clean_const c items) as [const|]; [|discriminate]. cbn [bind] in H.
       destruct (build_super c ctr const len) as [[[s anons] ctr1]|]; [|discriminate]. cbn [bind] in H.
       injection H as H1 H2. subst c' ctr'.
@@ -150,7 +150,7 @@ Proof. intros H. destruct s as [name items len|dummy name items len|opt name nam
       - exists []. rewrite app_nil_r. reflexivity. }
     destruct items as [|[ps|n r|n r] [|it2 items]]; try (exact (G H)).
     destruct (add_sequence c name ps len) as [c1|] eqn:A; [|discriminate]. cbn [bind] in H. injection H as H1 H2. subst c1 ctr'.
-    unfold add_sequence in A. destruct (is_anon name); [discriminate|]. destruct (seq_defined c name); [discriminate|].
+    unfold add_sequence in A. destruct (is_anon name); [discriminate|]. destruct (seq_defined c name); [discriminate|]. destruct (ahas (c_structs c) name); [discriminate|].
     destruct (get_length_const len ps); try discriminate. injection A as A. subst c'.
     constructor; cbn [set_bases c_bases c_sups c_strands c_structs c_kins]; auto.
     + intros n v. apply afind_app_keep.
@@ -166,7 +166,7 @@ Proof. intros H. destruct s as [name items len|dummy name items len|opt name nam
     + exists []. rewrite app_nil_r. reflexivity.
   - destruct (compile_snot sn) as [s0|]; [|discriminate]. cbn [bind] in H.
     destruct (add_structure c opt name names domain s0) as [c1|] eqn:A; [|discriminate]. cbn [bind] in H. injection H as H1 H2. subst c1 ctr'.
-    unfold add_structure in A. destruct (ahas (c_structs c) name); [discriminate|].
+    unfold add_structure in A. destruct (ahas (c_structs c) name); [discriminate|]. destruct (is_anon name); [discriminate|]. destruct (seq_defined c name); [discriminate|].
     destruct (find_strands c names) as [ts|]; [|discriminate]. cbn [bind] in A.
     match type of A with (do s <- ?e; _) = _ => destruct e as [s|]; [|discriminate] end. cbn [bind] in A.
     destruct (structure_ok s _); [|discriminate]. injection A as A. subst c'.
@@ -241,7 +241,7 @@ Proof. intros CI H. unfold compile_comp in H. rewrite steps_app in H.
   pose proof (keeps_trans _ _ _ (steps_keeps _ _ _ _ _ S3) (add_IO_keeps _ _ _ IO)) as K.
   assert (ST' : add_super_sequence c1 ctr1 name items len = OK (c2, ctr2)).
   { cbn [step] in ST. destruct items as [|[ps|n r|n r] [|it2 items]]; try exact ST. discriminate. }
-  clear ST. unfold add_super_sequence in ST'. destruct (is_anon name); [discriminate|]. destruct (seq_defined c1 name) eqn:D; [discriminate|].
+  clear ST. unfold add_super_sequence in ST'. destruct (is_anon name); [discriminate|]. destruct (seq_defined c1 name) eqn:D; [discriminate|]. destruct (ahas (c_structs c1) name); [discriminate|].
   destruct (clean_const c1 items) as [const|] eqn:CC; [|discriminate]. cbn [bind] in ST'.
   destruct (build_super c1 ctr1 const len) as [[[s anons] ctr1']|] eqn:BS; [|discriminate]. cbn [bind] in ST'.
   injection ST' as E1 E2. subst c2 ctr2.
@@ -263,7 +263,7 @@ Proof. intros H. unfold compile_comp in H. rewrite steps_app in H.
   destruct (add_IO c3 d) as [c4|] eqn:IO; [|discriminate]. cbn [bind] in H. injection H as H1 H2. subst c4 ctr3.
   pose proof (keeps_trans _ _ _ (steps_keeps _ _ _ _ _ S3) (add_IO_keeps _ _ _ IO)) as K.
   cbn [step] in ST. destruct (add_sequence c1 name ps len) as [c1'|] eqn:A; [|discriminate]. cbn [bind] in ST.
-  injection ST as E1 E2. subst c1' ctr2. unfold add_sequence in A. destruct (is_anon name); [discriminate|]. destruct (seq_defined c1 name) eqn:D; [discriminate|].
+  injection ST as E1 E2. subst c1' ctr2. unfold add_sequence in A. destruct (is_anon name); [discriminate|]. destruct (seq_defined c1 name) eqn:D; [discriminate|]. destruct (ahas (c_structs c1) name); [discriminate|].
   destruct (get_length_const len ps) as [l k| |k]; try discriminate. injection A as A. subst c2.
   exists l, k. split; [reflexivity|]. apply (k_bases _ _ K). cbn [set_bases c_bases]. rewrite afind_app.
   unfold seq_defined in D. apply orb_false_iff in D. destruct D as [D _]. unfold ahas in D.
@@ -284,7 +284,7 @@ Proof. intros H. unfold compile_comp in H. rewrite steps_app in H.
   pose proof (keeps_trans _ _ _ (steps_keeps _ _ _ _ _ S3) (add_IO_keeps _ _ _ IO)) as K.
   cbn [step] in ST. destruct (compile_snot sn) as [s0|] eqn:CS; [|discriminate]. cbn [bind] in ST.
   destruct (add_structure c1 opt name names domain s0) as [c1'|] eqn:A; [|discriminate]. cbn [bind] in ST.
-  injection ST as E1 E2. subst c1' ctr2. unfold add_structure in A. destruct (ahas (c_structs c1) name) eqn:D; [discriminate|].
+  injection ST as E1 E2. subst c1' ctr2. unfold add_structure in A. destruct (ahas (c_structs c1) name) eqn:D; [discriminate|]. destruct (is_anon name); [discriminate|]. destruct (seq_defined c1 name); [discriminate|].
   destruct (find_strands c1 names) as [ts|] eqn:FS; [|discriminate]. cbn [bind] in A.
   match type of A with (do s <- ?e; _) = _ => destruct e as [s|] eqn:DE; [|discriminate] end. cbn [bind] in A.
   destruct (structure_ok s _); [|discriminate]. injection A as A. subst c2.
